@@ -64,11 +64,14 @@ if (len(p) != 0 && this == last) || vOffset(this.End) >= vOffset(r.chunks[0].End
 }
 return n, err
 ``` -/
-def read (cr : ChunkReader) (n : Nat) : ChunkReader × List UInt8 × Option Err :=
-  match advance cr.r cr.chunks with
-  | (r0, chunks, some e) => (⟨r0, chunks⟩, [], some e)
-  | (r0, [], none) => (⟨r0, []⟩, [], some .eof)
-  | (r0, c :: rest, none) =>
+def nextChunk (r' : Reader) (rest : List Chunk) (out : List UInt8) :
+    ChunkReader × List UInt8 × Option Err :=
+  match rest with
+  | [] => (⟨r', []⟩, out, some .eof)
+  | c' :: _ => (⟨(r'.seek c'.bgn).1, rest⟩, out, (r'.seek c'.bgn).2)
+
+def readCore (r0 : Reader) (c : Chunk) (rest : List Chunk) (n : Nat) :
+    ChunkReader × List UInt8 × Option Err :=
     let last := r0.lastChunk
     let want := if c.fin.block = 0 ∧ last.fin.file < c.fin.file then r0.blockLen else c.fin.block
     let cursor := if last.fin.file = c.fin.file then last.fin.block else 0
@@ -79,13 +82,23 @@ def read (cr : ChunkReader) (n : Nat) : ChunkReader × List UInt8 × Option Err 
         (⟨r', c :: rest⟩, out, if out.length ≠ 0 ∧ e = .eof then none else some e)
       | (r', out, none) =>
         let this := r'.lastChunk
-        if (n ≠ 0 ∧ this = last) ∨ vOffset c.fin ≤ vOffset this.fin then
-          match rest with
-          | [] => (⟨r', []⟩, out, some .eof)
-          | c' :: _ =>
-            let (r'', e) := r'.seek c'.bgn
-            (⟨r'', rest⟩, out, e)
+        if (n ≠ 0 ∧ this = last) ∨ vOffset c.fin ≤ vOffset this.fin then nextChunk r' rest out
         else (⟨r', c :: rest⟩, out, none)
+
+def read (cr : ChunkReader) (n : Nat) : ChunkReader × List UInt8 × Option Err :=
+  match advance cr.r cr.chunks with
+  | (r0, chunks, some e) => (⟨r0, chunks⟩, [], some e)
+  | (r0, [], none) => (⟨r0, []⟩, [], some .eof)
+  | (r0, c :: rest, none) => readCore r0 c rest n
+
+/-- The client loop `for { n, err := cr.Read(p); use(p[:n]); if err != nil { break } }` with the given
+buffer sizes: all bytes seen, and the error that ended the loop (none if the sizes ran out first). -/
+def readAll (cr : ChunkReader) : List Nat → List UInt8 × Option Err
+  | [] => ([], none)
+  | n :: ns =>
+    match cr.read n with
+    | (cr', out, none) => let (rest, e) := readAll cr' ns; (out ++ rest, e)
+    | (_, out, some e) => (out, some e)
 
 /-- A client that calls `Read` with the given buffer sizes; per call the bytes and the error. -/
 def run (cr : ChunkReader) : List Nat → List (List UInt8 × Option Err)
